@@ -12,6 +12,7 @@ package main
 import (
 	"fmt"
 	"os"
+	"runtime/debug"
 	"runtime/pprof"
 	"strings"
 	"time"
@@ -85,9 +86,14 @@ type tNode struct {
 	key  uint32
 }
 
-func (c *ctx) exploreTrie(d *trieDriver, depth int) partStats {
+// exploreTrie: BFS to the given depth.  refCache: executions that do not
+// discover a new state compare the in-tree root with the root the reference
+// trie produced when the same content was first reached, instead of driving the
+// reference trie through the same history again (quick tier only).
+func (c *ctx) exploreTrie(d *trieDriver, depth int, refCache bool) partStats {
 	st := partStats{Alphabet: len(d.alpha)}
 	visited := map[uint32]bool{}
+	upRoot := map[uint32]*[32]byte{} // content -> reference root
 	rootOf := map[uint32][32]byte{} // merge oracle: content -> root of the first history that reached it
 	rootHist := map[uint32][]tOp{}
 	roots := map[[32]byte]bool{}
@@ -123,6 +129,10 @@ func (c *ctx) exploreTrie(d *trieDriver, depth int) partStats {
 				rootHist[r.ckey] = tOpsOf(d, hist, op)
 			}
 			roots[r.root] = true
+			if _, ok := upRoot[r.ckey]; !ok && refCache {
+				u := r.uroot
+				upRoot[r.ckey] = &u
+			}
 		}
 		if heavy {
 			st.States++
@@ -131,8 +141,8 @@ func (c *ctx) exploreTrie(d *trieDriver, depth int) partStats {
 		}
 	}
 
-	k0 := (&tState{content: make([]int, len(d.keys))}).key()
-	r0 := d.run(nil, true)
+	k0 := (&tState{content: make([]int, len(d.keys)), coarse: d.coarse}).key()
+	r0 := d.run(nil, true, nil)
 	visited[k0] = true
 	absorb(nil, -1, true, &r0)
 	frontier := []tNode{{nil, k0}}
@@ -152,10 +162,14 @@ func (c *ctx) exploreTrie(d *trieDriver, depth int) partStats {
 			// which executions discover a new state is decided here, in
 			// enumeration order (deterministic whatever the worker schedule).
 			heavy := make([]bool, n)
+			refs := make([]*[32]byte, n)
 			for i := 0; i < n; i++ {
-				s := stateOfKey(frontier[lo+i/na].key, len(d.keys))
+				s := stateOfKey(frontier[lo+i/na].key, len(d.keys), d.coarse)
 				s.apply(d.alpha[i%na])
-				if k := s.key(); !visited[k] {
+				k := s.key()
+				if visited[k] {
+					refs[i] = upRoot[s.contentKey()] // nil unless refCache and already known
+				} else {
 					visited[k] = true
 					heavy[i] = true
 					newStates++
@@ -169,8 +183,10 @@ func (c *ctx) exploreTrie(d *trieDriver, depth int) partStats {
 				}
 			}
 			results := make([]trieRes, n)
-			core.Par(n, func(i int) {
-				results[i] = d.run(tOpsOf(d, frontier[lo+i/na].hist, i%na), heavy[i])
+			core.Par(hi-lo, func(j int) {
+				for i := j * na; i < (j+1)*na; i++ {
+					results[i] = d.run(tOpsOf(d, frontier[lo+j].hist, i%na), heavy[i], refs[i])
+				}
 			})
 			for i := range results {
 				if heavy[i] && results[i].key != 0 && !visited[results[i].key] {
@@ -307,7 +323,7 @@ func (c *ctx) exploreSDB(start string, prefix []sOp, depth int, sh *sdbShared) p
 func selfCheck(tds []*trieDriver) {
 	for _, d := range tds {
 		for _, h := range [][]tOp{nil, {{"update", 1, 2}, {"update", 0, 1}, {"reopen", 0, 3}, {"delete", 1, 0}}} {
-			a, b := d.run(h, true), d.run(h, true)
+			a, b := d.run(h, true, nil), d.run(h, true, nil)
 			if a.digest() != b.digest() {
 				core.Fatal("non-deterministic execution of %s history %q", d.part, histString(h))
 			}
@@ -323,11 +339,29 @@ func selfCheck(tds []*trieDriver) {
 
 // ------------------------------------------------------------------ main
 
+type trieRun struct {
+	name     string
+	part     string
+	coarse   bool
+	full     bool // full alphabet (with update(k, empty))
+	depth    int
+	refCache bool
+}
+
 func main() {
 	run := core.Start("C11", "model_checking", "XSTATE+DIFFREF")
 	initUniverse()
+	// Executions are short-lived garbage and the live heap is small: collect
+	// only when the heap reaches 1.5 GiB instead of after every few MB.
+	debug.SetGCPercent(-1)
+	debug.SetMemoryLimit(1536 << 20)
+	if v := os.Getenv("VERIF_GC"); v != "" {
+		var pc, lim int
+		fmt.Sscanf(v, "%d,%d", &pc, &lim)
+		debug.SetGCPercent(pc)
+		debug.SetMemoryLimit(int64(lim) << 20)
+	}
 	c := &ctx{run: run, samples: core.NewSampler(6, run.Seed), classes: core.NewCounter(), coarse: core.NewCounter()}
-	plain, secure := newTrieDriver("trie"), newTrieDriver("securetrie")
 
 	if run.ReplayPath != "" {
 		var k kase
@@ -335,11 +369,8 @@ func main() {
 			core.Fatal("cannot load replay: %v", err)
 		}
 		switch k.Part {
-		case "trie":
-			r := plain.run(k.TOps, k.Heavy)
-			c.report(k, r.viols)
-		case "securetrie":
-			r := secure.run(k.TOps, k.Heavy)
+		case "trie", "securetrie":
+			r := newTrieDriver(k.Part, false, true).run(k.TOps, k.Heavy, nil)
 			c.report(k, r.viols)
 		case "statedb":
 			r := runSDB(k.SOps)
@@ -350,64 +381,95 @@ func main() {
 		run.Finish(nil, nil)
 	}
 
-	selfCheck([]*trieDriver{plain, secure})
+	selfCheck([]*trieDriver{newTrieDriver("trie", false, true), newTrieDriver("securetrie", false, true)})
 	if pf := os.Getenv("VERIF_CPUPROFILE"); pf != "" {
 		f, _ := os.Create(pf)
 		pprof.StartCPUProfile(f)
 		defer pprof.StopCPUProfile()
 	}
 
-	trieDepth := run.Pick(5, 7)
-	secDepth := run.Pick(5, 7)
-	sdbDepth := run.Pick(4, 5)
+	// quick: coarse residency classes, reference root cached per content;
+	// thorough: the stated bound (depth 7) under the coarse classes plus depth 5
+	// under the fine classes, reference trie driven on every execution.
+	runs := []trieRun{
+		{"trie", "trie", true, false, 5, true},
+		{"securetrie", "securetrie", true, false, 4, true},
+	}
+	sdbDepth := 4
+	if !run.Quick() {
+		runs = []trieRun{
+			{"trie", "trie", true, true, 7, false},
+			{"trie_fine_residency", "trie", false, true, 5, false},
+			{"securetrie", "securetrie", true, true, 7, false},
+			{"securetrie_fine_residency", "securetrie", false, true, 5, false},
+		}
+		sdbDepth = 5
+	}
+	if v := os.Getenv("VERIF_C11_DEPTHS"); v != "" { // development aid only
+		var td, sd int
+		fmt.Sscanf(v, "%d,%d,%d", &td, &sd, &sdbDepth)
+		for i := range runs {
+			if runs[i].part == "trie" && runs[i].depth > td {
+				runs[i].depth = td
+			}
+			if runs[i].part == "securetrie" && runs[i].depth > sd {
+				runs[i].depth = sd
+			}
+		}
+	}
 
 	t0 := time.Now()
 	lap := func(what string, st partStats) {
 		if os.Getenv("VERIF_DEBUG") != "" {
-			fmt.Fprintf(os.Stderr, "%-16s %8.1fs states=%d transitions=%d merges=%d per-depth=%v\n", what, time.Since(t0).Seconds(), st.States, st.Transitions, st.Merges, st.PerLevel)
+			fmt.Fprintf(os.Stderr, "%-26s %8.1fs states=%d transitions=%d merges=%d per-depth=%v\n", what, time.Since(t0).Seconds(), st.States, st.Transitions, st.Merges, st.PerLevel)
 		}
 		t0 = time.Now()
 	}
-	stPlain := c.exploreTrie(plain, trieDepth)
-	lap("trie", stPlain)
-	stSecure := c.exploreTrie(secure, secDepth)
-	lap("securetrie", stSecure)
+	cov := core.Coverage{}
+	bounds := map[string]int{"value_sizes": len(trieVals) - 1, "addresses": nAddr, "slots": nSlot, "statedb_depth": sdbDepth}
+	states, trans, merges := 0, 0, 0
+	add := func(name string, st partStats) {
+		lap(name, st)
+		cov[name] = st
+		states, trans, merges = states+st.States, trans+st.Transitions, merges+st.Merges
+	}
+	for _, tr := range runs {
+		d := newTrieDriver(tr.part, tr.coarse, tr.full)
+		add(tr.name, c.exploreTrie(d, tr.depth, tr.refCache))
+		bounds[tr.name+"_depth"] = tr.depth
+		bounds[tr.part+"_keys"] = len(d.keys)
+	}
 	pprof.StopCPUProfile()
 	sh := &sdbShared{rootOf: map[string][32]byte{}, rootHist: map[string][]sOp{}, roots: map[[32]byte]bool{}}
 	stEmpty := c.exploreSDB("empty", nil, sdbDepth, sh)
-	lap("statedb/empty", stEmpty)
 	stSeeded := c.exploreSDB("seeded", seedPrefix, sdbDepth, sh)
-	lap("statedb/seeded", stSeeded)
 	stEmpty.Roots, stSeeded.Roots = len(sh.roots), len(sh.roots)
+	add("statedb_empty", stEmpty)
+	add("statedb_seeded", stSeeded)
 
-	states := stPlain.States + stSecure.States + stEmpty.States + stSeeded.States
-	trans := stPlain.Transitions + stSecure.Transitions + stEmpty.Transitions + stSeeded.Transitions
-	merges := stPlain.Merges + stSecure.Merges + stEmpty.Merges + stSeeded.Merges
-
-	run.Finish(core.Coverage{
-		"states":                        states,
-		"transitions":                   trans,
-		"traces_validated_against_impl": trans,
-		"evaluations":                   trans,
-		"merges":                        merges,
-		"distinct_nontrivial":           c.classes.Len(),
-		"rule": "BFS over operation histories, one execution (fresh in-tree instance + fresh reference instance, replay, one more op, full oracle on the state reached) per (representative history, enabled op). " +
-			"Trie / SecureTrie: alphabet = update(k,v) for 3 value sizes (1/31/33 B), delete(k), update(k,empty), get(k), prove(k) for every key, hash, commit, commit+reopen in 3 variants (same node db; after Database.Commit to disk; brand-new Database on the disk db); 8 keys for the plain trie (nibble prefixes 0,1,2,3,4,63 shared; strict nibble-prefix keys incl. the empty key; two 32-byte keys), 6 keys for the secure trie (keccak images sharing 0..3 nibbles); canonical key = content map + residency mode (never committed|committed|reopened×3) × (clean|dirty|hashed). " +
-			"StateDB: 2 addresses, alphabet = AddBalance(0|5), SubBalance(5) if affordable, SetNonce, SetCode, SetState(2 slots × {0,7}), Suicide, CreateAccount per address, AddLog, AddRefund, Snapshot, RevertToSnapshot(every live snapshot), IntermediateRoot(true), Commit(true)+state.New in 2 variants (same state.Database; TrieDB().Commit + brand-new state.Database on the disk db), from two start states (empty; seeded = contract with committed storage + funded account, built through the API); canonical key = all getter-observable state of the current revision and of every live snapshot. " +
-			"distinct_nontrivial = distinct (part, op, residency mode or model effect) outcome classes observed; a state is distinct by canonical key.",
-		"exhaustive": true,
-		"bounds": map[string]int{"trie_depth": trieDepth, "securetrie_depth": secDepth, "statedb_depth": sdbDepth,
-			"trie_keys": len(plain.keys), "securetrie_keys": len(secure.keys), "value_sizes": len(trieVals) - 1, "addresses": nAddr, "slots": nSlot},
-		"trie":            stPlain,
-		"securetrie":      stSecure,
-		"statedb_empty":   stEmpty,
-		"statedb_seeded":  stSeeded,
-		"outcome_classes": c.coarse.Map(),
-		"samples":         c.samples.List(),
-	}, []string{
+	refRule := "the reference trie is driven through the same history on every execution"
+	if run.Quick() {
+		refRule = "the reference trie is driven through the same history on every execution that discovers a new state; the other executions compare the in-tree root with the reference root recorded for the same content"
+	}
+	cov["states"] = states
+	cov["transitions"] = trans
+	cov["traces_validated_against_impl"] = trans
+	cov["evaluations"] = trans
+	cov["merges"] = merges
+	cov["distinct_nontrivial"] = c.classes.Len()
+	cov["rule"] = "BFS over operation histories; one execution = fresh in-tree instance (+ fresh reference instance), replay of the representative history, one more op, oracle on the op and on the state reached; every (representative history, enabled op) pair is executed; a state is distinct by canonical key. " +
+		"Trie / SecureTrie: alphabet = update(k,v) for 3 value sizes (1/31/33 B), delete(k), [thorough: update(k,empty)], get(k), prove(k) for every key, hash, commit, commit+reopen in 3 variants (same node database; after Database.Commit to the disk db; brand-new Database on the disk db); 8 keys for the plain trie (shared nibble prefixes 0,1,2,3,4,63; strict nibble-prefix keys incl. the empty key; two 32-byte keys), 6 32-byte keys for the secure trie (keccak images sharing 0..3 nibbles); canonical key = content map + residency class (coarse: never committed|committed|reopened × clean|dirty; fine: never committed|committed|reopened×3 variants × clean|dirty|hashed). Light oracle on every execution: every Get = content, root = reference root = root of a fresh in-tree trie built by sorted insertion, merge oracle (equal content ⇒ equal root); full oracle on every execution that discovers a state: additionally Prove→VerifyProof (in-tree and reference verifier) for every key incl. absent ones, leaf iteration = content, root unchanged by reads; " + refRule + ". " +
+		"StateDB: 2 addresses, alphabet = AddBalance(0|5), SubBalance(5) if affordable, SetNonce, SetCode, SetState(2 slots × {0,7}), Suicide, CreateAccount per address, AddLog, AddRefund, Snapshot, RevertToSnapshot(every live snapshot), IntermediateRoot(true), Commit(true)+state.New in 2 variants (same state.Database; TrieDB().Commit + brand-new state.Database on the disk db), from two start states (empty; seeded = contract with committed storage + funded account, built through the API); canonical key = all getter-observable state of the current revision and of every live snapshot; the reference StateDB is driven through the same history on every execution. " +
+		"distinct_nontrivial = distinct (part, op, residency class or model effect) outcome classes observed."
+	cov["exhaustive"] = true
+	cov["bounds"] = bounds
+	cov["outcome_classes"] = c.coarse.Map()
+	cov["samples"] = c.samples.List()
+	run.Finish(cov, []string{
 		"upstream go-ethereum v1.8.27 (trie, core/state, rlp, keccak) is the trusted reference; it is linked into the same binary (build tag nocgo only removes the duplicate libsecp256k1 C symbols, which this check never calls)",
 		"collision resistance of keccak256: equal roots are taken to mean equal tries",
 		"a proof for a key in an EMPTY trie has no node; the only demand there is that verification yields no value",
+		"SecureTrie.Prove and VerifyProof are given the keccak image of the key (the calling convention of StateDB.GetProof in both implementations)",
 		"snapshots are live until the next IntermediateRoot/Commit (Finalise ends the transaction and clears journal and refund — reference semantics); RevertToSnapshot is only issued for live snapshots, SubBalance only when the balance covers it (a negative balance cannot be RLP-encoded by either implementation)",
 		"every execution runs on the real in-tree code (traces_validated_against_impl = all transitions); database = in-memory ethdb (MemDatabase), no LevelDB",
 	})
